@@ -85,18 +85,18 @@ Definition clear_flag (b i : nat) (w : world) : world :=
 Definition pop (b : nat) (w : world) : popres * world :=
   let k := S (popk w) in
   let w := set_popk k w in
-  if forced_inc k w then (PopInc, run_inj IExit k w)
+  if forced_inc k w then (PopInc, run_inj IExit k None w)
   else
     match get_blk w b with
     | None => (PopNone, emit EStuck w)
     | Some kb =>
         match bqueue kb with
-        | [] => (PopNone, run_inj IExit k w)
+        | [] => (PopNone, run_inj IExit k None w)
         | i :: q =>
             let w := put_blk b (blk_set_queue kb q) w in
-            let w := run_inj IMid k w in
+            let w := run_inj IMid k (Some (b, i)) w in
             let w := clear_flag b i w in
-            let w := run_inj IExit k w in
+            let w := run_inj IExit k (Some (b, i)) w in
             (PopReady i, w)
         end
     end.
@@ -107,7 +107,7 @@ Definition register (b t : nat) (w : world) : world :=
            | None => emit EStuck w
            end in
   let j := S (regk w) in
-  run_inj IReg j (set_regk j w).
+  run_inj IReg j None (set_regk j w).
 
 Inductive pres := PPending | PNone | PReady (i : nat) (c : child) (r : res).
 
